@@ -3,6 +3,7 @@ package zzh
 import (
 	"strconv"
 	"strings"
+	"time"
 
 	"github.com/alowayed/go-univers/pkg/spec/vers"
 	"github.com/alowayed/go-univers/pkg/univers"
@@ -171,4 +172,50 @@ func VXStdAtoi(a string, flip bool) {
 		good = n == m
 	}
 	vv.Assert(xor(good, flip), "selfcheck: strconv.Atoi differs from the decimal model")
+}
+
+// time.Parse intrinsic: the Unix time of a parsed pseudo-version timestamp, natively and in the
+// engine (concrete inputs), and against the days-from-civil formula (symbolic inputs).
+
+func timeCode(s string) int {
+	t, err := time.Parse("20060102150405", s)
+	if err != nil {
+		return -1
+	}
+	return int(t.Unix())
+}
+
+func VXSelfTimeReport(s string) { vv.Assert(false, strconv.Itoa(timeCode(s))) }
+
+func VXSelfTime(s string, want int) {
+	vv.Assert(timeCode(s) == want, "selfcheck: engine and native execution disagree (time.Parse)")
+}
+
+// daysFromCivil: days since 1970-01-01 (H. Hinnant's algorithm, floor divisions made explicit).
+func daysFromCivil(y, m, d int) int {
+	if m <= 2 {
+		y--
+	}
+	era := y / 400
+	if y < 0 {
+		era = (y - 399) / 400
+	}
+	yoe := y - era*400
+	mp := m - 3
+	if m <= 2 {
+		mp = m + 9
+	}
+	doy := (153*mp+2)/5 + d - 1
+	doe := yoe*365 + yoe/4 - yoe/100 + doy
+	return era*146097 + doe - 719468
+}
+
+func dig2(s string, i int) int { return int(s[i]-'0')*10 + int(s[i+1]-'0') }
+
+func VXStdTime(s string, flip bool) {
+	t, err := time.Parse("20060102150405", s)
+	vv.Assume(err == nil)
+	y := dig2(s, 0)*100 + dig2(s, 2)
+	want := daysFromCivil(y, dig2(s, 4), dig2(s, 6))*86400 + dig2(s, 8)*3600 + dig2(s, 10)*60 + dig2(s, 12)
+	vv.Assert(xor(int(t.Unix()) == want, flip), "selfcheck: time.Parse value differs from the days-from-civil model")
 }
